@@ -555,6 +555,13 @@ pub(super) enum Fld {
     Pad(u16),
     /// NTS authenticator and encrypted extension fields
     Auth(Au, Vec<Fld>),
+    /// a field of any type with a body of exactly n bytes (any residue mod 4 in v5 framing),
+    /// filled with tags (false) or zeros (true)
+    Raw(u16, u16, bool),
+    /// a hand-framed authenticator (type 0x0404) that is *not* cryptographically valid:
+    /// (nonce length field, ciphertext length field, body length); the body is the two
+    /// length fields followed by tagged filler, cut or extended to the body length
+    RawAuth(u16, u16, u16),
 }
 
 #[derive(Clone, Debug, PartialEq, Eq, Hash)]
@@ -603,6 +610,8 @@ impl Fld {
                 },
                 inner.iter().map(|f| f.code()).collect::<Vec<_>>().join("+")
             ),
+            Fld::Raw(ty, n, z) => format!("x{ty:04x}.{n}.{}", if *z { 'z' } else { 't' }),
+            Fld::RawAuth(nl, cl, n) => format!("X{nl}.{cl}.{n}"),
         }
     }
 
@@ -631,6 +640,16 @@ impl Fld {
             }
             "d" => Fld::Draft(rest == "1"),
             "z" => Fld::Pad(rest.parse().ok()?),
+            "x" => {
+                let mut it = rest.split('.');
+                let ty = u16::from_str_radix(it.next()?, 16).ok()?;
+                let n = it.next()?.parse().ok()?;
+                Fld::Raw(ty, n, it.next()? == "z")
+            }
+            "X" => {
+                let mut it = rest.split('.');
+                Fld::RawAuth(it.next()?.parse().ok()?, it.next()?.parse().ok()?, it.next()?.parse().ok()?)
+            }
             "A" => {
                 let open = rest.find('(')?;
                 let au = match &rest[..open] {
@@ -731,6 +750,7 @@ const K_GARBAGE: u8 = 3;
 const K_NONCE: u8 = 4;
 const K_MAC: u8 = 5;
 const K_HDR: u8 = 6;
+const K_RAW: u8 = 7;
 
 #[derive(Clone, Copy, Debug, PartialEq, Eq, Hash)]
 pub(super) enum Zone {
@@ -893,7 +913,34 @@ fn put_simple(
             let (o, w) = put_field(out, ver, T_PAD, &vec![0u8; (*n as usize).saturating_sub(4)]);
             (o, w, T_PAD)
         }
-        Fld::Auth(..) => unreachable!("nested authenticator"),
+        Fld::Raw(ty, n, zero) => {
+            let body = if *zero { vec![0u8; *n as usize] } else { tagged(pos, K_RAW, *n as usize) };
+            let (o, w) = put_field(out, ver, *ty, &body);
+            let seen: Vec<u8> = if ver == 5 { body.clone() } else { out[o + 4..o + w].to_vec() };
+            match *ty {
+                T_UID => acc.uids.push((seen, zone, o + w)),
+                T_COOKIE => {
+                    acc.cookie_like.push(seen.len());
+                    acc.cookies.push(seen);
+                    if !*zero {
+                        forbid_chunks(acc, &body);
+                    }
+                }
+                T_PH => acc.cookie_like.push(seen.len()),
+                T_REFREQ if ver == 5 => {
+                    if seen.len() >= 2 {
+                        acc.refreqs.push((seen.len(), u16::from_be_bytes([seen[0], seen[1]]) as usize, zone, o + w));
+                    }
+                }
+                _ => {
+                    if !*zero {
+                        forbid_chunks(acc, &body);
+                    }
+                }
+            }
+            (o, w, *ty)
+        }
+        Fld::Auth(..) | Fld::RawAuth(..) => unreachable!("nested authenticator"),
     }
 }
 
@@ -1035,6 +1082,29 @@ pub(super) fn build_with(r: &Req, keys: &KeyEnv, plain_edit: Option<&dyn Fn(&mut
                 }
                 zone = Zone::Post;
             }
+            Fld::RawAuth(nl, cl, n) => {
+                let mut body = vec![];
+                body.extend_from_slice(&nl.to_be_bytes());
+                body.extend_from_slice(&cl.to_be_bytes());
+                let fill = tagged(i as u8, K_NONCE, (*n as usize).saturating_sub(4));
+                body.extend_from_slice(&fill);
+                body.truncate(*n as usize);
+                forbid_chunks(&mut acc, &fill);
+                let (o, w) = put_field(&mut out, r.ver, T_AUTH, &body);
+                spans.push(Span {
+                    off: o,
+                    wire: w,
+                    ty: T_AUTH,
+                    zone,
+                });
+                len_offsets.extend([o + 2, o + 4, o + 6]);
+                n_auth += 1;
+                if n_auth == 1 {
+                    auth_end = o + w;
+                    auth_ok = false;
+                }
+                zone = Zone::Post;
+            }
             other => {
                 if let (Fld::Cookie(ck, _), Zone::Pre) = (other, zone) {
                     pre_cookies.push(*ck);
@@ -1168,6 +1238,76 @@ pub(super) fn alphabet(ver: u8, thorough: bool) -> Vec<Fld> {
 
 const POLLS: [u8; 7] = [6, 0, 4, 10, 17, 127, 255];
 
+pub(super) const RAW_TYPES: [u16; 8] = [T_UID, T_COOKIE, T_PH, T_DRAFT, T_PAD, T_REFREQ, T_REFRESP, T_UNKNOWN];
+
+/// Unaligned / hand-framed extension fields (part of G, and base set of C22):
+/// * every known field type (identifier, cookie, placeholder, draft id, padding, reference-id
+///   request and response, unknown) x body length 0..=20 (every residue mod 4; NTPv4 framing
+///   only the multiples of 4) x filler {tags, zeros} x context {last field of a plain
+///   request, after a valid cookie, inside the encrypted part of a correctly authenticated request};
+/// * authenticator type 0x0404 framed by hand: nonce length 0..=20 x ciphertext length 0..=20 x
+///   body length = consistent (4 + padded nonce + ciphertext) + {-4..=+3} (NTPv4 framing: -4, 0, +4)
+///   x context {alone, after a valid cookie}.
+/// NTPv5 requests carry the draft identification first.
+pub(super) fn raw_requests() -> Vec<Req> {
+    let mut out = vec![];
+    for ver in [5u8, 4] {
+        let head = |v: &mut Vec<Fld>| {
+            if ver == 5 {
+                v.push(Fld::Draft(true));
+            }
+        };
+        for ty in RAW_TYPES {
+            for n in 0..=20u16 {
+                if ver == 4 && n % 4 != 0 {
+                    continue;
+                }
+                for zero in [false, true] {
+                    for ctx in 0..3 {
+                        let raw = Fld::Raw(ty, n, zero);
+                        let mut f = vec![];
+                        head(&mut f);
+                        match ctx {
+                            0 => f.push(raw),
+                            1 => {
+                                f.push(Fld::Cookie(Ck::Cur, 0));
+                                f.push(raw);
+                            }
+                            _ => {
+                                f.push(Fld::Uid(32));
+                                f.push(Fld::Cookie(Ck::Cur, 0));
+                                f.push(Fld::Auth(Au::Ok, vec![raw]));
+                            }
+                        }
+                        let mut r = Req::plain(ver, f);
+                        r.poll = POLLS[(n as usize + ctx) % POLLS.len()];
+                        out.push(r);
+                    }
+                }
+            }
+        }
+        let deltas: &[i32] = if ver == 5 { &[-4, -3, -2, -1, 0, 1, 2, 3] } else { &[-4, 0, 4] };
+        for nl in 0..=20u16 {
+            for cl in 0..=20u16 {
+                let consistent = 4 + ((nl as i32 + 3) & !3) + cl as i32;
+                for d in deltas {
+                    let n = (consistent + d).max(0) as u16;
+                    for with_cookie in [false, true] {
+                        let mut f = vec![];
+                        head(&mut f);
+                        if with_cookie {
+                            f.push(Fld::Cookie(Ck::Cur, 0));
+                        }
+                        f.push(Fld::RawAuth(nl, cl, n));
+                        out.push(Req::plain(ver, f));
+                    }
+                }
+            }
+        }
+    }
+    out
+}
+
 /// All words of length <= `max_len` over `alpha`.
 pub(super) fn words(alpha: &[Fld], max_len: usize) -> Vec<Vec<Fld>> {
     let mut out = vec![vec![]];
@@ -1194,6 +1334,7 @@ pub(super) fn words(alpha: &[Fld], max_len: usize) -> Vec<Vec<Fld>> {
 /// * v5: every word of <= `max_len` symbols of `alphabet(5)` with the draft
 ///       identification appended or prepended, x tail {none, 4 junk bytes}; without any
 ///       draft identification only for words of <= 1 symbol.
+/// * the hand-framed / unaligned fields of `raw_requests()`.
 /// poll / leap bits of the request header rotate with the case index (not a product
 /// dimension). `alg512` sessions are used for every 5th word.
 pub(super) fn grammar(thorough: bool, max_len: usize) -> Vec<Req> {
@@ -1244,6 +1385,7 @@ pub(super) fn grammar(thorough: bool, max_len: usize) -> Vec<Req> {
             push(&mut out, Req::plain(5, w.clone()));
         }
     }
+    out.extend(raw_requests());
     out
 }
 
